@@ -4,7 +4,7 @@ import json
 import os
 
 from . import stores
-from .util import safe_call
+from .util import md5hex, safe_call
 
 ALGOS = ["md5", "md5-dos2unix", "sha256"]
 
@@ -390,6 +390,67 @@ def run_build_race(ctx, n):
             state.close()
 
 
+def run_checkout_state(ctx, n):
+    """index checkout with a hash-state database onto a workspace that already holds foreign files, some objects being unavailable:
+    whatever the cache says about a workspace path afterwards must be the hash of the bytes that are there"""
+    from dvc_objects.fs.local import LocalFileSystem
+
+    from dvc_data.hashfile.db.local import LocalHashFileDB
+    from dvc_data.hashfile.hash import hash_file
+    from dvc_data.hashfile.hash_info import HashInfo
+    from dvc_data.hashfile.meta import Meta
+    from dvc_data.hashfile.state import State
+    from dvc_data.index.checkout import apply, compare
+    from dvc_data.index.index import DataIndex, DataIndexEntry, ObjectStorage
+
+    rng = ctx.rng
+    fs = LocalFileSystem()
+    for _ in range(n):
+        root = ctx.mkdtemp()
+        odb = LocalHashFileDB(fs, os.path.join(root, "odb"))
+        odb.cache_types = [rng.choice(["copy", "hardlink", "symlink"])]
+        state = State(root_dir=root, tmp_dir=os.path.join(root, "tmp"))
+        idx = DataIndex()
+        idx.storage_map.add_cache(ObjectStorage((), odb))
+        ws = os.path.join(root, "ws")
+        os.makedirs(ws)
+        spec = {}
+        for i in range(rng.randrange(2, 6)):
+            k = ("f%d" % i,) if rng.random() < 0.6 else ("d", "f%d" % i)
+            c = b"tracked-%d-%d" % (i, rng.randrange(100))
+            available = rng.random() < 0.6
+            foreign = rng.random() < 0.5
+            idx[k] = DataIndexEntry(key=k, meta=Meta(), hash_info=HashInfo("md5", md5hex(c)))
+            if available:
+                from . import stores
+
+                stores.put_raw(odb.path, md5hex(c), c, mode=0o444)
+            if foreign:
+                p = os.path.join(ws, *k)
+                os.makedirs(os.path.dirname(p), exist_ok=True)
+                with open(p, "wb") as f:
+                    f.write(b"user-file-%d" % i)
+            spec["/".join(k)] = {"available": available, "foreign_file_present": foreign}
+        case = {"checkout_with_state": spec, "link": odb.cache_types[0]}
+        try:
+            k1, _ = safe_call(lambda: apply(compare(None, idx), ws, fs, update_meta=False, storage="cache", state=state, onerror=lambda *a: None))
+            ctx.case(case)
+            ctx.count("checkout_state:link=%s" % odb.cache_types[0])
+            for r, _ds, fns in os.walk(ws):
+                for fn in fns:
+                    p = os.path.join(r, fn)
+                    if not os.path.exists(p):
+                        continue  # a dangling link (known finding of C09)
+                    cur = md5hex(open(p, "rb").read())
+                    _, hi = state.get(p, fs)
+                    ctx.oracle(hi is None or hi.value == cur, case, {"why": "after an index checkout the hash-state database holds a stale hash for a workspace path",
+                                                                    "path": os.path.relpath(p, ws), "cached": None if hi is None else hi.value, "current": cur})
+                    _, hi2 = hash_file(p, fs, "md5", state=state)
+                    ctx.oracle(hi2.value == cur, case, {"why": "hash_file through the cache is stale after an index checkout", "path": os.path.relpath(p, ws)})
+        finally:
+            state.close()
+
+
 def run(ctx):
     ctx.rule = (
         "histories of 8-30 steps over 1-4 real files: rewrite in place (same length), append, truncate, atomic replace (new inode, "
@@ -405,6 +466,7 @@ def run(ctx):
         run_history(ctx, ctx.rng.randrange(8, 30))
     run_other(ctx, ctx.n(25, 250))
     run_build_race(ctx, ctx.n(40, 400))
+    run_checkout_state(ctx, ctx.n(50, 500))
 
 
 def search(ctx):
@@ -412,6 +474,7 @@ def search(ctx):
         run_history(ctx, ctx.rng.randrange(8, 30))
     run_other(ctx, 200)
     run_build_race(ctx, 300)
+    run_checkout_state(ctx, 300)
 
 
 def replay(ctx, payload):
